@@ -105,9 +105,14 @@ Consume(r) ==
        /\ Check(tid, r, "ReturnTrueOnlyIfSomeArtifactWeak", r.ret => \E i \in 1..Len(r.arts) : r.arts[i].after.weak)
        /\ \A i \in 1..Len(r.arts) : LET v == ArtVerdict(r, r.arts[i]) IN Check(tid, r, v, v = "ok")
 
+\* public factoring helpers: whatever they return divides the modulus; a returned pair multiplies to it
+ConsumeHelper(r) ==
+  IF r.raised # "none" THEN Fail(tid, r, "Total")
+  ELSE /\ Check(tid, r, "HelperFactorDivides", \A i \in 1..Len(r.obs.facts) : r.obs.facts[i].divides)
+       /\ Check(tid, r, "HelperProductIsModulus", r.obs.none \/ r.obs.product_is_n)
 TInit == tid = 1 /\ RegInit
 TNext == /\ tid <= NRecs
-         /\ Consume(Recs[tid])
+         /\ IF Recs[tid].ev = "helper" THEN ConsumeHelper(Recs[tid]) ELSE Consume(Recs[tid])
          /\ tid' = tid + 1
 TSpec == TInit /\ [][TNext]_tid
 =============================================================================
